@@ -53,6 +53,14 @@ func modelValues(smtFile string, exprs []string) (map[string]string, error) {
 		return nil, err
 	}
 	text := strings.Replace(string(src), "(get-model)\n", "", 1)
+	var kept []string
+	for _, l := range strings.Split(text, "\n") {
+		if strings.HasPrefix(l, "(get-value") {
+			continue
+		}
+		kept = append(kept, l)
+	}
+	text = strings.Join(kept, "\n")
 	text += "(get-value (" + strings.Join(exprs, " ") + "))\n"
 	tmp := smtFile + ".values.smt2"
 	if err := os.WriteFile(tmp, []byte(text), 0o644); err != nil {
@@ -183,6 +191,10 @@ func goValue(v string) any {
 			return string(rune(n))
 		})
 		return body
+	case strings.HasPrefix(v, "#x") && len(v) == 18:
+		if u, err := strconv.ParseUint(v[2:], 16, 64); err == nil {
+			return int64(u)
+		}
 	case strings.HasPrefix(v, "(- "):
 		n, err := strconv.ParseInt(strings.TrimSuffix(strings.TrimPrefix(v, "(- "), ")"), 10, 64)
 		if err == nil {
